@@ -54,6 +54,8 @@ try:
             res["check_lines"] = [l[:200] for l in out.splitlines() if l.startswith(("VIOLATION", "INCONCLUSIVE", "   harness"))][:4]
         finally:
             sh("git -C /repo checkout -- .")
+            # the seeded run rewrote the evidence file restore it
+            sh("git -C /verif checkout -- evidence/%s.json" % prop)
     else:
         res["check_exit"] = "patch does not apply to /repo: " + out[-300:]
 finally:
